@@ -212,12 +212,17 @@ func (p *Program) parseGhostType(s string, pk *packages.Package) (*Type, error) 
 	if m := qualTypeRe.FindStringSubmatch(s); m != nil {
 		// pkgname.Type[args] possibly unexported: resolve through the imported package's scope directly
 		var ip *packages.Package
+		var byName []*packages.Package
 		for _, cand := range p.pkgs {
 			if cand.Name == m[2] {
+				byName = append(byName, cand)
 				if _, imported := pk.Imports[cand.PkgPath]; imported || cand.PkgPath == pk.PkgPath {
 					ip = cand
 				}
 			}
+		}
+		if ip == nil && len(byName) == 1 {
+			ip = byName[0] // a loaded package that the contract's package does not import itself
 		}
 		if ip == nil {
 			// import alias used in the package's files
